@@ -1,6 +1,6 @@
 (* C07 - discovery reports exact statistics of the data (constraints are tight). *)
 From Coq Require Import ZArith List Bool.
-From Tdda Require Import Base.Sexp Base.Str Generated.Consts Constraints.Model Constraints.ModelProofs.
+From Tdda Require Import Base.Sexp Base.Str Generated.Consts Constraints.Model Constraints.ModelProofs Constraints.AllowedProofs.
 Import ListNotations.
 Open Scope Z_scope.
 
@@ -67,6 +67,14 @@ Theorem C07_disc_no_duplicates_iff : forall c,
   (1 < Z.of_nat (length (non_nulls c))) /\ NoDupV (non_nulls c).
 Proof. exact disc_no_duplicates_iff_proof. Qed.
 Print Assumptions C07_disc_no_duplicates_iff.
+
+(* allowed_values: what is listed is exactly the set of distinct non-null strings, each once, between 1 and
+   MAX_CATEGORIES of them *)
+Theorem C07_disc_allowed_values_tight : forall c k, all_strings (non_nulls c) -> In k (d_allowed c) ->
+  exists vs, k = CAllowed (Some vs) /\ (forall s, In s vs <-> In (VStr s) (non_nulls c)) /\ NoDup vs /\
+             1 <= Z.of_nat (length vs) <= max_categories.
+Proof. exact discovered_allowed_values_tight. Qed.
+Print Assumptions C07_disc_allowed_values_tight.
 
 Theorem C07_disc_nothing_for_empty : forall c rex, c_cells c = [] -> c_type c <> TOther ->
   exists t, discover c rex = Some ([CType (Some [t])] ++ d_rex c rex) /\ t = c_type c.
